@@ -140,7 +140,7 @@ func VerifC15RoundTrip(h *verifh.H) {
 // property / reference values a posted entity may carry; each is valid JSON
 // that json.Marshal reproduces byte for byte
 var (
-	vPostProps = []string{`"bob"`, `5`, `true`, `[]`, `[1,"a",true]`, `[[],[1]]`, `["x"]`}
+	vPostProps = []string{`"bob"`, `5`, `true`, `[]`, `[1,"a",true]`, `[[],[1]]`, `["x"]`, `1e999`, `[-1e400]`}
 	vPostRefs  = []string{`"ex:e2"`, `["ex:e2","ex:e3"]`, `[]`, `["ex:e2"]`}
 )
 
@@ -193,6 +193,20 @@ func VerifC15PostGet(h *verifh.H) {
 		return out, err
 	}
 	posted, err := parse(doc)
+	// a number literal outside the range of the hub's number type (1e999) is JSON the hub cannot
+	// represent: it may be rejected; if it is accepted, everything below applies to it as well
+	unrepresentable := false
+	for _, f := range pv {
+		if strings.Contains(f, "e999") || strings.Contains(f, "e400") {
+			unrepresentable = true
+		}
+	}
+	if unrepresentable && err != nil {
+		res, lerr := ds.GetEntities("", -1)
+		h.Assert(lerr == nil && len(res.Entities) == 0, "a rejected payload stores nothing")
+		h.Observe("body", 0)
+		return
+	}
 	h.Assert(err == nil && len(posted) == 1, "the valid payload parses :: doc="+doc)
 	if err != nil || len(posted) != 1 {
 		return
